@@ -1008,6 +1008,18 @@ func (f *frame) builtin(at ssa.Instruction, b *ssa.Builtin, c *ssa.CallCommon, a
 			ra, ro := "(sarr "+r.S+")", "(soff "+r.S+")"
 			e.assume(implies(st.cond, "(forall ((r Int)) (! (=> (not (= r "+ra+")) (= (select "+newH+" r) (select "+oldH+" r))) :pattern ((select "+newH+" r))))"))
 			e.assume(implies(st.cond, "(forall ((p Int)) (! (=> (and (<= "+ro+" p) (< p (+ "+ro+" (slen "+s.S+")))) (= (select (select "+newH+" "+ra+") p) (select (select "+oldH+" (sarr "+s.S+")) (+ (- p "+ro+") (soff "+s.S+"))))) :pattern ((select (select "+newH+" "+ra+") p))))"))
+			// the set of elements: appending one element inserts it; an empty slice has no elements
+			es := e.sortOf(stp.Elem())
+			ss := "sliceset_" + sanitize(es)
+			e.declFun(ss, []string{"(Array Int " + es + ")", "Int", "Int"}, "(Array "+es+" Bool)")
+			setOf := func(hh string, sl string) string {
+				return "(" + ss + " (select " + hh + " (sarr " + sl + ")) (soff " + sl + ") (slen " + sl + "))"
+			}
+			e.assume(implies(st.cond, implies("(= (slen "+s.S+") 0)", "(= "+setOf(oldH, s.S)+" ((as const (Array "+es+" Bool)) false))")))
+			if n, ok := staticSliceLen(t.S); ok && n == 1 {
+				el := "(select (select " + oldH + " (sarr " + t.S + ")) (soff " + t.S + "))"
+				e.assume(implies(st.cond, "(= "+setOf(newH, r.S)+" (store "+setOf(oldH, s.S)+" "+el+" true))"))
+			}
 			// positions of the new array beyond the written part keep their old contents when appending in place
 			if t.Sort == "Slice" {
 				if n, ok := staticSliceLen(t.S); ok && n <= 8 {
